@@ -15,7 +15,7 @@ def link_fault_items(rng, timeout_ns, prev_keys, version, agent_cfg, lat):
     t = lat
     for _ in range(n_bad):
         t += gen.latency(rng, 1000, max(2000, timeout_ns // 8))
-        kind = rng.choice(["rid", "rid", "community-or-user", "msgid-or-version", "stale", "truncate", "dup-late", "engine", "reflect", "request-pdu", "stray-report"])
+        kind = rng.choice(["rid", "rid", "community-or-user", "msgid-or-version", "stale", "truncate", "dup-late", "engine", "reflect", "request-pdu", "stray-report", "tag-alias"])
         it = {"k": "genuine", "delay_ns": t}
         if kind == "rid":
             it["rewrite"] = {"request-id": rng.choice(["prev", "zero", "plus1", "xor1", "neg", "bit31", "bit32", "hi", "m256", "m65536", "m16777216", "p256", "p16777216", rng.randrange(2**31)])}
@@ -60,6 +60,8 @@ def link_fault_items(rng, timeout_ns, prev_keys, version, agent_cfg, lat):
                 it["rewrite"] = dict(rng.choice([{"user": ""}, {"user": ""}, {"user": b"other".hex()}, {"msg-id": "xor1"}, {"msg-id": "prev"}, {"engine-id": "0102030405"}]), noauth=1)
             else:
                 it["rewrite"] = {"community": rng.choice([b"other".hex(), b"".hex()])}
+        elif kind == "tag-alias":
+            it["inner"] = [{"op": "tag_alias", "name": rng.choice(["pdu", "pdu", "request-id", "varbinds", "message", "version"]), "k": rng.choice([1, 1, 2, 255])}]
         elif kind == "request-pdu":
             # somebody else's request (or a confused agent): a request-type PDU with a foreign id
             it["rewrite"] = {"pdu-type": rng.choice([0xA0, 0xA1, 0xA5]), "request-id": rng.choice(["xor1", "plus1", "zero", "prev"])}
